@@ -127,6 +127,12 @@ fn exec_run(t: &[&str]) -> Outcome {
     // 1. trace valid by construction, judged by the reference predicate
     let trace = gen_trace(&op.desc, op.field, op.seed);
     let pubs = pub_inputs(&op.desc, op.field, &trace);
+    // evidence label: (#values, degree of the interpolant) of the longest main sequence assertion
+    let seq_label = sequence_interpolants(&op.desc, op.field, &trace)
+        .into_iter()
+        .max()
+        .map(|(m, d)| format!(" seq={}:{}", m, d))
+        .unwrap_or_default();
     if let Err(v) = is_valid(&op.desc, op.field, &trace, &pubs) {
         // not a failure of the property: the generated trace is not in the quantifier's domain
         o.out = format!("gen-invalid:{}", v);
@@ -157,7 +163,7 @@ fn exec_run(t: &[&str]) -> Outcome {
                 o.out = "excluded".into();
                 return o;
             }
-            o.out = if adm { "prove-panic".into() } else { "rejected".into() };
+            o.out = if adm { format!("prove-panic{}", seq_label) } else { "rejected".into() };
             return fail(o, format!("c01.prove.panic@{}", panic_file(&info)), format!("panic at {}", info));
         },
         Ok(out) => out,
@@ -169,7 +175,7 @@ fn exec_run(t: &[&str]) -> Outcome {
     let proof = match out.proof {
         Err(e) => {
             let kind = prover_error_kind(&e);
-            o.out = format!("prove-err:{}", kind);
+            o.out = format!("prove-err:{}{}", kind, seq_label);
             return fail(o, format!("c01.prove.err.{}", kind), format!("{:?}", e));
         },
         Ok(p) => p,
@@ -252,7 +258,7 @@ fn exec_run(t: &[&str]) -> Outcome {
     if adm && v1 != v2 && v1 != "excluded" && v2 != "excluded" && v1 == "ok" && !o.fails.iter().any(|f| f.0.starts_with("c01.parse") || f.0.starts_with("c01.reverify")) {
         o = o.fail("c01.serialization.changes-verdict", format!("{} before, {} after the round trip", v1, v2));
     }
-    o.out = format!("{} {} {}", v1, v2, info);
+    o.out = format!("{} {} {}{}", v1, v2, info, seq_label);
     o
 }
 
@@ -553,7 +559,125 @@ fn feature_desc(n: usize, d: u32, stride: usize, first: usize, periodic: Vec<u12
     desc
 }
 
+/// a description whose sequence assertion (stride, first step) covers a column of chosen interpolant
+/// degree: column 0 is a full-degree power map, columns 1.. are geometric columns T[i] = (g^e)^i for
+/// the exponents `exps` (their asserted sub-sequence interpolates to x^(e mod #values)); with several
+/// exponents a last pointwise column holds their sum (a polynomial with several terms). `cyc > 0`
+/// replaces the target by a column of random values repeating with that period. Optionally an
+/// auxiliary pointwise image of the target with the matching aux sequence assertion and a Lagrange column.
+fn degree_desc(field: FieldId, n: usize, stride: usize, first: usize, exps: &[usize], cyc: usize, aux: bool, lagrange: bool) -> AirDesc {
+    let rule0 = Expr::add(Expr::pow(Expr::Cur(0), 2), Expr::Const(3));
+    let mut cols = vec![ColGen::Step { init: None, expr: rule0.clone() }];
+    let mut constraints = vec![Constraint { degree: Degree::new(2), expr: Expr::sub(Expr::Nxt(0), rule0) }];
+    let target;
+    if cyc > 0 {
+        cols.push(if cyc == 1 { ColGen::Const(None) } else { ColGen::Cyc(cyc) });
+        target = 1;
+    } else {
+        for (k, e) in exps.iter().enumerate() {
+            let j = k + 1;
+            let rule = Expr::mul(Expr::Const(trace_generator_pow(field, n, *e as u64)), Expr::Cur(j));
+            cols.push(ColGen::Step { init: Some(1), expr: rule.clone() });
+            constraints.push(Constraint { degree: Degree::new(1), expr: Expr::sub(Expr::Nxt(j), rule) });
+        }
+        if exps.len() > 1 {
+            let j = exps.len() + 1;
+            let mut sum = Expr::Cur(1);
+            for k in 2..=exps.len() {
+                sum = Expr::add(sum, Expr::mul(Expr::Const(k as u128 + 1), Expr::Cur(k)));
+            }
+            cols.push(ColGen::Fn(sum.clone()));
+            constraints.push(Constraint { degree: Degree::new(1), expr: Expr::sub(Expr::Cur(j), sum) });
+            target = j;
+        } else {
+            target = 1;
+        }
+    }
+    let width = cols.len();
+    let mut desc = AirDesc {
+        width,
+        trace_len: n,
+        exemptions: 1,
+        tail_junk: false,
+        periodic: vec![],
+        cols,
+        constraints,
+        assertions: vec![AssertDesc::sequence(target, first, stride), AssertDesc::single(0, 0)],
+        aux: None,
+    };
+    if aux {
+        let f = Expr::add(Expr::mul(Expr::Rand(0), Expr::Cur(target)), Expr::Rand(1));
+        let c0 = Expr::sub(Expr::AuxCur(0), f.clone());
+        desc.aux = Some(AuxDesc {
+            width: 1 + lagrange as usize,
+            num_rands: 2,
+            lagrange,
+            cols: vec![AuxGen::Fn(f)],
+            constraints: vec![Constraint { degree: Degree::new(1), expr: c0 }],
+            assertions: vec![AuxAssertDesc {
+                a: AssertDesc::sequence(0, first, stride),
+                value: Expr::add(Expr::mul(Expr::Rand(0), Expr::PubSeq(0)), Expr::Rand(1)),
+            }],
+        });
+    }
+    desc
+}
+
+/// sequence assertions whose asserted values interpolate to a polynomial of EVERY interesting degree
+/// (not only generic full-degree ones): large-polynomial path (64, 128, 256, 512 values), small path
+/// (4..32 values), strides 2.., non-zero first steps, main and auxiliary segment, values of period
+/// 1, 2 and 4, several-term polynomials
+fn degree_ops(tier: Tier, emit: &mut dyn FnMut(String)) {
+    let mut both = |d: &AirDesc, field: FieldId, o: &OptSpec, seed: u64, emit: &mut dyn FnMut(String)| {
+        emit(run_line(field, HashId::Blake3_256, o, seed, d));
+        emit(glue_line(d, o));
+    };
+    let max_n = if tier == Tier::Quick { 1024 } else { 4096 };
+    let mut k = 0usize;
+    let values: &[usize] = if tier == Tier::Quick { &[4, 8, 16, 32, 64, 128, 256, 512] } else { &[4, 8, 16, 32, 64, 128, 256, 512, 1024] };
+    for &m in values {
+        let degs: Vec<usize> = if m < 64 { vec![0, 1, m / 2, m - 2, m - 1] } else { interesting_degrees(m) };
+        for d in degs {
+            // strides 2, 4, 8, ... in rotation (trace length = values * stride), first step 0 / 1 / stride-1
+            let strides: Vec<usize> = [2usize, 4, 8, 16, 32].into_iter().filter(|s| m * s <= max_n).collect();
+            let stride = strides[k % strides.len()];
+            let first = [0usize, 1, stride - 1][k % 3];
+            let n = m * stride;
+            let field = FieldId::ALL[k % 3];
+            let exts: Vec<u8> = (1..=3u8).filter(|x| field.supports_ext(*x)).collect();
+            let o = OptSpec::new(4, [4usize, 8, 2][k % 3], 0, exts[k % exts.len()], [4usize, 2, 8][k % 3], [3usize, 0, 7][k % 3]);
+            let o = if fri_well_formed(n * o.blowup, o.blowup, o.folding, o.remainder) { o } else { OptSpec { folding: 2, ..o } };
+            // main segment only, and with the auxiliary image (+ Lagrange column every other time)
+            both(&degree_desc(field, n, stride, first, &[d], 0, false, false), field, &o, 80, emit);
+            both(&degree_desc(field, n, stride, first, &[d], 0, true, k % 2 == 0), field, &o, 81, emit);
+            k += 1;
+        }
+        // values of period 1, 2 and 4 in the asserted sub-sequence; polynomials with several terms
+        for stride in [2usize, 4] {
+            if m * stride > max_n || m < 8 {
+                continue;
+            }
+            let n = m * stride;
+            let field = FieldId::ALL[k % 3];
+            let o = OptSpec::new(4, 4, 0, 1, 2, 1);
+            for period in [1usize, 2, 4] {
+                both(&degree_desc(field, n, stride, k % stride, &[], period * stride, k % 2 == 0, false), field, &o, 82, emit);
+                k += 1;
+            }
+            both(&degree_desc(field, n, stride, 1, &[1, m / 2 + 3], 0, false, false), field, &o, 83, emit);
+            both(&degree_desc(field, n, stride, 0, &[2, 5, (m - 2).min(70)], 0, true, false), field, &o, 84, emit);
+        }
+    }
+    // the longest strides: 2 and 4 values
+    for (n, stride) in [(8usize, 4usize), (16, 8), (64, 32), (64, 16)] {
+        for e in [0usize, 1, 3] {
+            both(&degree_desc(FieldId::F64, n, stride, stride - 1, &[e], 0, true, false), FieldId::F64, &OptSpec::new(4, 4, 0, 1, 2, 1), 85, emit);
+        }
+    }
+}
+
 fn hardening_ops(tier: Tier, emit: &mut dyn FnMut(String)) {
+    degree_ops(tier, emit);
     let mut both = |d: &AirDesc, field: FieldId, hash: HashId, o: &OptSpec, seed: u64, emit: &mut dyn FnMut(String)| {
         emit(run_line(field, hash, o, seed, d));
         emit(glue_line(d, o));
@@ -977,7 +1101,17 @@ impl Prop for P {
         let t: Vec<&str> = line.split(' ').collect();
         if t.first() == Some(&"run") && t.len() >= 4 {
             let ext = t[3].split('.').nth(3).unwrap_or("?");
-            let verdict: Vec<&str> = out.split(' ').take(2).map(|v| v.split(':').next().unwrap_or("")).collect();
+            let verdict: Vec<&str> =
+                out.split(' ').filter(|v| !v.contains('=')).take(2).map(|v| v.split(':').next().unwrap_or("")).collect();
+            // sequence assertions whose values are not generic (interpolant below full degree) or long
+            // enough for the large-polynomial path get their own class: (#values, interpolant degree)
+            if let Some(l) = out.split(' ').find_map(|v| v.strip_prefix("seq=")) {
+                let mut it = l.split(':').map(|x| x.parse::<usize>().unwrap_or(0));
+                let (m, d) = (it.next().unwrap_or(0), it.next().unwrap_or(0));
+                if m >= 64 || d + 1 < m {
+                    return format!("run.seq.values{}.degree{}:{}", m, d, verdict.join("+"));
+                }
+            }
             format!("run.{}.{}.x{}:{}", t[1], t[2], ext, verdict.join("+"))
         } else {
             format!("{}:{}", t.first().unwrap_or(&""), if out == "panic" { "panic" } else if out == "bad-op" { "bad-op" } else { "ok" })
